@@ -5,4 +5,5 @@ import CspuzModel.Properties.C15
 #print axioms Cspuz.C15.C15_seq_terminates
 #print axioms Cspuz.C15.C15_borders_roundtrip
 #print axioms Cspuz.C15.C15_rooms
+#print axioms Cspuz.C15.C15_valued_rooms
 #print axioms Cspuz.C15.C15_puzzles_wf
